@@ -99,7 +99,7 @@ def canon_loops(e):
     order = {}
     sites = {}
     for n in walk_ordered(e):
-        if n[0] in ("it", "ix", "gen"):
+        if n[0] in ("it", "ix", "gen", "pos"):
             if n[1] not in order:
                 order[n[1]] = f"L{len(order)}"
         elif n[0] == "hv":
@@ -111,7 +111,7 @@ def canon_loops(e):
             sites.setdefault(n[1], f"S{len(sites)}")
 
     def f(n):
-        if n[0] in ("it", "ix", "gen"):
+        if n[0] in ("it", "ix", "gen", "pos"):
             return (n[0], order.get(n[1], n[1])) + n[2:]
         if n[0] == "hv":
             return ("hv", n[1], order.get(n[2], n[2]))
@@ -208,6 +208,21 @@ def rowform(e):
             return n[1][1][n[2][1]]
         return None
     return mapx(e, f)
+
+
+def posform(e):
+    """after rowform: name the position of each loop by one symbol, so that `xs[i]` with i walking the positions and the element
+    `x` bound by `for x in xs` / `for x, y in zip(xs, ys)` are the same expression  ('sub', xs, ('pos', loop))"""
+    def f(n):
+        if n[0] == "ix":
+            return ("pos", n[1])
+        if n[0] == "it":
+            d = n[2]
+            if d[0] == "call" and d[1] == ("g", "range") and len(d[2]) == 1:
+                return ("pos", n[1])
+            return ("sub", d, ("pos", n[1]), 0)
+        return None
+    return mapx(rowform(e), f)
 
 
 def walk_ordered(e) -> Iterator[tuple]:
